@@ -19,7 +19,7 @@ def seeded():
         sid = os.path.basename(os.path.dirname(d)); m = json.load(open(d))
         q = res.get(sid + ":quick", {}).get("status", "-"); t = res.get(sid + ":thorough", {}).get("status", "-")
         if m.get("neutralised"):
-            q = q + " (no longer a break on HEAD: see meta.json)"
+            q = "neutralised by a later fix commit (see meta.json)"
         out.append("| %s | %s | %s | %s | %s |" % (sid, m.get("property"), esc(m.get("needs_to_manifest", m.get("summary", "")))[:300], q, t))
     return "\n".join(out)
 def status():
